@@ -28,7 +28,7 @@ ASSUMPTIONS = [
     "array angle lists are used only with angles_order zxz (the array + zzx combination is documented inconsistently)",
     "cluster_size, n_particles, symmetry and tomo_mask options of the peak extraction are left at their defaults",
 ]
-BUDGET = {"quick": {"examples": 900, "seconds": 85}, "thorough": {"examples": 3500, "seconds": 540}}
+BUDGET = {"quick": {"examples": 650, "seconds": 85}, "thorough": {"examples": 3500, "seconds": 540}}
 
 C = oracle.MOTL_COLUMNS
 IX = {c: i for i, c in enumerate(C)}
@@ -44,7 +44,8 @@ def dist_case(draw):
             "metric": draw(st.sampled_from(["score", "score", "geom2"])), "keep_greater": draw(st.booleans()),
             "chains": draw(st.integers(0, 3)), "cols_seed": draw(st.integers(0, 10**6)),
             "index": draw(st.sampled_from(["default", "default", "reversed", "strided"])),
-            "group_values": draw(st.lists(st.integers(1, 9), min_size=n_groups, max_size=n_groups, unique=True))}
+            "group_values": draw(st.lists(st.integers(1, 9), min_size=n_groups, max_size=n_groups, unique=True)),
+            "int_coords": draw(st.integers(0, 5)) == 0}
 
 
 @st.composite
@@ -61,7 +62,7 @@ def peak_case(draw):
             "numbering": draw(st.integers(0, 1)), "order": order,
             "list_as": "csv" if order == "zzx" else draw(st.sampled_from(["array", "csv"])),
             "tomo_id": draw(st.integers(1, 500)), "object_id": draw(st.one_of(st.none(), st.integers(1, 50))),
-            "angles_dtype": draw(st.sampled_from(["float64", "int32", "float32"]))}
+            "angles_dtype": draw(st.sampled_from(["float64", "int32", "float32"])), "offset": draw(st.sampled_from([0.0, 0.0, -0.6, -1.5, -5.0]))}
 
 
 def strategy(tier):
@@ -126,6 +127,9 @@ def build_distance(case):
     if case["metric"] != "score":
         a[:, IX["score"]] = rng.uniform(0, 1, n)
     a[:, [IX["phi"], IX["theta"], IX["psi"]]] = rng.uniform(-180, 180, (n, 3))
+    if case.get("int_coords"):  # integer lattice positions with integer shifts (tables loaded from integer-typed sources)
+        a[:, [IX["x"], IX["y"], IX["z"]]] = np.round(a[:, [IX["x"], IX["y"], IX["z"]]])
+        a[:, [IX["shift_x"], IX["shift_y"], IX["shift_z"]]] = np.round(a[:, [IX["shift_x"], IX["shift_y"], IX["shift_z"]]])
     pos_c = a[:, [IX["x"], IX["y"], IX["z"]]] + a[:, [IX["shift_x"], IX["shift_y"], IX["shift_z"]]]
     return a, pos_c
 
@@ -179,6 +183,10 @@ def run_distance(case, out):
     df = gen.table_df({"cols": cols, "rows": a.tolist(), "bulk": None, "index": case["index"]})
     out.label("distance", f"field:{f}", f"metric:{case['metric']}", "keep_greater" if case["keep_greater"] else "keep_smaller", f"groups:{case['n_groups']}",
               f"index:{case['index']}", "chains" if case["chains"] and n >= 3 else "no_chains")
+    if case.get("int_coords"):
+        out.label("integer_dtype_coordinates")
+        for col in ("x", "y", "z", "shift_x", "shift_y", "shift_z"):
+            df[col] = df[col].astype("int64")
     ok, m = call(out, "Motl", lambda: cryomotl.Motl(df.copy()))
     if not ok:
         return
@@ -238,6 +246,7 @@ def run_peaks(case, out):
             c = [rng.uniform(0, s - 1) for s in shape]
             w = rng.uniform(1.0, 3.0)
             scores = scores + rng.uniform(0.5, 1.5) * np.exp(-sum((I[k] - c[k]) ** 2 for k in range(3)) / (2 * w * w))
+    scores = scores + case.get("offset", 0.0)  # maps with negative scores (zero-mean CC maps): thresholds can be negative
     na = case["n_angles"]
     anglist = np.round(rng.uniform(-180, 180, (na, 3)), 3)  # rows are (phi, theta, psi)
     numbering = case["numbering"]
@@ -273,6 +282,17 @@ def run_peaks(case, out):
     if not ok:
         return
     out.check(np.array_equal(scores, keep_s) and np.array_equal(amap, keep_a), "peaks:input_map_modified", "")
+    if case["list_as"] == "csv" and m is not None:
+        # the same list path is used again with the other column order: the answer must follow the file, not an earlier call
+        other = "zzx" if order == "zxz" else "zxz"
+        arr2 = anglist if other == "zxz" else anglist[:, [0, 2, 1]]
+        with open("angles.csv", "w") as f2:
+            for r_ in arr2:
+                f2.write(",".join(repr(float(v_)) for v_ in r_) + "\n")
+        ok2, m2 = call(out, "scores_extract_particles", lambda: tmana.scores_extract_particles(
+            scores, amap, "angles.csv", case["tomo_id"], D, object_id=case["object_id"], angles_order=other, angles_numbering=numbering, **kw))
+        if ok2 and m2 is not None:
+            out.check(m2.df[["phi", "theta", "psi", "x", "y", "z"]].equals(m.df[["phi", "theta", "psi", "x", "y", "z"]]), "peaks:result_depends_on_earlier_call_with_same_list_path", "")
     if len(sup) == 0:
         out.check(m is None or len(m.df) == 0, "peaks:peaks_without_supra_threshold_voxel", "")
         return
